@@ -20,8 +20,8 @@ import (
 	"pgregory.net/rapid"
 
 	"verif/ev"
-	"verif/rig/mesh"
 	"verif/rig/codec"
+	"verif/rig/mesh"
 )
 
 func TestMain(m *testing.M) {
